@@ -28,6 +28,11 @@ def cases(tier, seed):
     for c in c06.cases(tier, seed):
         if c["k"] == "write":
             yield c
+    # files that carry no addresses (NoneValue): the name-file block still has its four address bytes
+    for ft, dt in ((0, 0), (0, 0xFF), (1, 0xFF), (2, 0), (3, 0xFF)):
+        for n in (1, 255, 300):
+            yield {"k": "write", "files": [dict(C.spec("NOADDR", ftype=ft, dtype=dt, load=0, exec_=0, n=n), noaddr=True)]}
+            yield {"k": "write", "files": [c06.ALPHA[0], dict(C.spec("NOADDR", ftype=ft, dtype=dt, load=0, exec_=0, n=n), noaddr=True), c06.ALPHA[1]]}
     for nm in WIDE_NAMES:
         for n in (0, 5, 300):
             yield {"k": "wname", "files": [C.spec(nm, n=n), C.spec("NEXT", n=3)]}
@@ -116,5 +121,5 @@ def describe(tier):
     d["oracle"] = ("strict parse of the whole buffer: per file leader, name-file block with exactly 15 payload bytes (name[8], type, data type, "
                    "gap flag, two addresses), leader, data blocks of 1..255 bytes whose payloads concatenate to the data, EOF block; every block "
                    "$55 $3C type len payload cksum $55 with cksum = (type+len+sum) mod 256; only $00/$55 between blocks")
-    d["alphabet"] = d["alphabet"].split("; read side")[0] + "; images built by per-file open/add/save(append) cycles; 7 names that are not printable ASCII (the writer may refuse them)"
+    d["alphabet"] = d["alphabet"].split("; read side")[0] + "; images built by per-file open/add/save(append) cycles; 7 names that are not printable ASCII (the writer may refuse them); files of every type without addresses"
     return d
